@@ -161,6 +161,8 @@ func (bitrot) Generate(r *core.PRNG, tier string, idx int64) any {
 		return sc
 	}
 	cfg := StreamCfg{ES: r.Range(0, 1), PMT: 1, SI: true, UnitsMin: 2, UnitsMax: 2, MultiSec: r.Chance(1, 2), PATRepeat: 2, NoAF: r.Bool(), MaxPES: 300}
+	// long sections (loops beyond 255 bytes) only where the faults are seeded, not exhaustive
+	cfg.BigPSI = idx%3 != 0 && r.Chance(1, 3)
 	sc := &BitrotScenario{Mode: "sections", Model: GenModel(r, cfg)}
 	// choose the unit under test: never the first PAT unit
 	type cand struct{ s, u int }
